@@ -1493,15 +1493,17 @@ def convert_mul_max_to_abs_or_lrelu(op: Operation, arch, nng) -> Operation:
             # check that it is a constant
             if const.type != Op.Const:
                 return op
-            # Remove the Mul from the shared input's consumers
-            shared_in.consumer_list.remove(mul)
         else:
             return op
 
-        val = const.outputs[0].values
-        if val >= 0:
+        # the constant is a quantised code: decide on the real value it denotes
+        alpha = (np.double(const_tens.values) - const_tens.quantization.zero_point) * np.double(
+            const_tens.quantization.scale_f32
+        )
+        if 0 <= alpha <= 1:
+            # Max(x, alpha * x) is a leaky ReLU only for a slope of at most 1
             new_op = Op.LeakyRelu
-            op.attrs["alpha"] = val
+            op.attrs["alpha"] = alpha
             # to produce bit exact results, the alpha is not enough;
             # save additional scaling info in attr "alpha_scale", to be used as input
             # to the LUT construction
@@ -1511,11 +1513,13 @@ def convert_mul_max_to_abs_or_lrelu(op: Operation, arch, nng) -> Operation:
             mul_ofm_scale = np.double(mul_ofm.quantization.scale_f32)
             alpha_scale, alpha_shift = scaling.elementwise_mul_scale(mul_ifm_scale, mul_ifm2_scale, mul_ofm_scale)
             op.attrs["alpha_scaling"] = (alpha_scalar, alpha_scale, alpha_shift)
-        elif val == -1:
+        elif alpha == -1:
             new_op = Op.Abs
         else:
             return op
 
+        # Remove the Mul from the shared input's consumers
+        shared_in.consumer_list.remove(mul)
         op.type = new_op
         op.name = op.name.replace("Maximum", new_op.name)
         op.inputs = [shared_in]
